@@ -106,21 +106,30 @@ def cost(tier, seed, info):
         out['summary']['time'][f] = [(l, round(t, 4)) for _, l, t in res]
         txt, pr = judge_times(f, res)
         if txt:
-            # confirm before reporting: measure the two sizes again (more repetitions); noise does not repeat
-            res2, _ = timed(f, (pr['n0'], pr['n']), reps=4)
-            txt2, pr2 = (None, None) if res2 is None else judge_times(f, res2)
-            ctl = None
-            if txt2:
-                # control: the harness's own reference decoder (independent of the library, linear by construction) on
-                # plain literals of the same two sizes, measured now; a loaded machine (cache / memory pressure)
-                # inflates the large runs of every Python workload alike
-                resc, _ = timed('plain-literals', (pr['n0'], pr['n']), reps=4, mode='time-ref')
-                if resc and len(resc) == 2 and len(res2) == 2 and resc[0][2] > 0 and res2[0][2] > 0:
-                    ctl = (resc[1][2] / resc[0][2]) / max(resc[1][1] / max(resc[0][1], 1), 1e-9)      # time growth / length growth
-                    mine = (res2[1][2] / res2[0][2]) / max(res2[1][1] / max(res2[0][1], 1), 1e-9)
-                    if mine < 1.6 * ctl:
-                        txt2 = None
-            out['summary'].setdefault('confirmations', []).append({'family': f, 'first': txt, 'confirmed': bool(txt2), 'control_ratio': ctl})
+            # confirm before reporting: three further rounds, each measuring the two sizes again and, straight afterwards, the
+            # harness's own reference decoder (independent of the library, linear by construction) on plain literals of the
+            # same two sizes. A loaded machine (cache / memory pressure from other jobs) inflates the large runs of every
+            # Python workload alike and changes from minute to minute, so the family is reported only if in EVERY round it
+            # is super-linear by the criterion above and grows at least 1.6 times faster than the control of that round.
+            rounds = []
+            txt2, pr2 = None, None
+            for _round in range(3):
+                res2, _ = timed(f, (pr['n0'], pr['n']), reps=3)
+                t2, p2 = (None, None) if res2 is None else judge_times(f, res2)
+                ctl = mine = None
+                if t2:
+                    resc, _ = timed('plain-literals', (pr['n0'], pr['n']), reps=3, mode='time-ref')
+                    if resc and len(resc) == 2 and len(res2) == 2 and resc[0][2] > 0 and res2[0][2] > 0:
+                        ctl = (resc[1][2] / resc[0][2]) / max(resc[1][1] / max(resc[0][1], 1), 1e-9)      # time growth / length growth
+                        mine = (res2[1][2] / res2[0][2]) / max(res2[1][1] / max(res2[0][1], 1), 1e-9)
+                        if mine < 1.6 * ctl:
+                            t2 = None
+                rounds.append({'superlinear': bool(t2), 'control_ratio': ctl, 'family_ratio': mine})
+                if not t2:
+                    txt2 = None
+                    break
+                txt2, pr2 = t2, p2
+            out['summary'].setdefault('confirmations', []).append({'family': f, 'first': txt, 'confirmed': bool(txt2), 'rounds': rounds})
             if txt2:
                 out['failures'].append(Failure(dict(pr2, mode='time'), 'superlinear-time', txt2))
     # (3) suspects from the work model: search at large sizes (this only runs when the tie is broken)
